@@ -354,6 +354,8 @@ def call(objs, st, tmp):
         if a['via'] == 'pncmfopen':
             return pnc.pncmfopen(paths, stackdim=a['dim'], format='netcdf')
         from PseudoNetCDF.core._files import netcdf
+        if a.get('defaultdim'):     # the helper chooses the dimension
+            return netcdf.open_mfdataset(*paths)
         return netcdf.open_mfdataset(*paths, stackdim=a['dim'])
     if act == 'stack':
         if a.get('via') == 'stack_files':
@@ -474,6 +476,11 @@ def execute(arg):
         for n, st in enumerate(prog['steps']):
             st = dict(st)
             st['_n'] = n
+            # a step that names an object an earlier (failed) step did not
+            # create ends the program
+            if any(i < 1 or i > len(objs)
+                   for i in [st['src']] + list(st.get('others', []))):
+                break
             rec = {'act': st['act'], 'src': st['src'],
                    'others': st.get('others', []),
                    'args': st.get('args', {}),
